@@ -51,7 +51,7 @@ func runC20(c *Ctx) {
 		runC20FirstUseChild(c)
 		return
 	}
-	rep.Meta("scenarios (worker built with -race; the driver turns every race-detector report that has a gmsm frame into a violation keyed by the pair of gmsm functions): (1) package-level operations on separate data from 2..32 goroutines — sign/verify/encrypt/decrypt/key exchange, SM3 one-shot and separate hashers, SM4 mode helpers, GCM helpers, certificate parse + chain verification against shared CertPools, PKCS#7 parse (BER transcoder), each result compared with its sequential counterpart; (2) one cipher.Block shared by all goroutines, Encrypt/Decrypt mixed, results vs the reference; (3) first use of the curve from N goroutines released together, one fresh child process per trial, mixed entry points; (4) one Config serving 8..48 simultaneous handshakes with tickets, concurrent SetSessionTicketKeys rotation, a shared ClientSessionCache and shared CertPools, agreement monitors per connection; porcupine linearizability check of the LRU session cache (many short histories, unique values) and of the ticket-key register; (5) one established connection with concurrent writers (tagged messages), a reader and Close at a seeded instant: per-writer FIFO, no duplication, no loss before the close point, every call returns, Write after Close errors; (6) one established connection used in both directions at once (writers and a reader on each end) while the transport damages one application record at a seeded point, so that the alert path of the reading goroutine runs against concurrent Writes: race detector, per-writer FIFO, damaged record noticed, every call returns; (7) one pair of certificate pools holding several CA certificates under one subject name with different keys, verifying leaves of all branches from 2..32 goroutines: every result equals the sequential one; (8) Close after a Write that ran into its deadline against a stalled peer, with a goroutine blocked in Read: Close returns and releases the reader; (9) the SM4 mode and GCM helpers in a tight loop from 16 goroutines, each under its own key. Distinct non-trivial = distinct (scenario, goroutine count, variant).",
+	rep.Meta("scenarios (worker built with -race; the driver turns every race-detector report that has a gmsm frame into a violation keyed by the pair of gmsm functions): (1) package-level operations on separate data from 2..32 goroutines — sign/verify/encrypt/decrypt/key exchange, SM3 one-shot and separate hashers, SM4 mode helpers, GCM helpers, certificate parse + chain verification against shared CertPools, PKCS#7 parse (BER transcoder), each result compared with its sequential counterpart; (2) one cipher.Block shared by all goroutines, Encrypt/Decrypt mixed, results vs the reference; (3) first use of the curve from N goroutines released together, one fresh child process per trial, mixed entry points; (4) one Config serving 8..48 simultaneous handshakes with tickets, concurrent SetSessionTicketKeys rotation, a shared ClientSessionCache and shared CertPools, agreement monitors per connection; porcupine linearizability check of the LRU session cache (many short histories, unique values) and of the ticket-key register; (5) one established connection with concurrent writers (tagged messages), a reader and Close at a seeded instant: per-writer FIFO, no duplication, no loss before the close point, every call returns, Write after Close errors; (6) one established connection used in both directions at once (writers and a reader on each end) while the transport damages one application record at a seeded point, so that the alert path of the reading goroutine runs against concurrent Writes: race detector, per-writer FIFO, damaged record noticed, every call returns; (7) one pair of certificate pools holding several CA certificates under one subject name with different keys, verifying leaves of all branches from 2..32 goroutines: every result equals the sequential one; (8) Close after a Write that ran into its deadline against a stalled peer, with a goroutine blocked in Read: Close returns and releases the reader; (9) the SM4 mode and GCM helpers in a tight loop from 16 goroutines, each under its own key; (10) PKCS#7 objects of 70..200 KiB parsed concurrently, each used after further parses; (11) 24 goroutines connecting to 6 names through one client session cache of capacity 2 (evictions while handshakes are in flight): every handshake completes; duplex writers include messages of 70 KiB to 256 KiB. Distinct non-trivial = distinct (scenario, goroutine count, variant).",
 		200, []string{"Go race detector", "porcupine v1.3.0", "sequential results / reference models as oracles"},
 		[]string{"a clean race-detector run only speaks for the interleavings produced", "sm4.SetIV (process-wide IV setter) is not called during the run"})
 	scenarios := []struct {
@@ -59,7 +59,7 @@ func runC20(c *Ctx) {
 		f    func(*Ctx)
 	}{
 		{"pkg-ops", c20PkgOps}, {"shared-block", c20SharedBlock}, {"first-use", c20FirstUse}, {"shared-config", c20SharedConfig},
-		{"lru-porcupine", c20LRU}, {"ticketkeys-porcupine", c20TicketKeys}, {"conn-rwc", c20ConnRWC}, {"conn-duplex", c20ConnDuplex}, {"shared-pool", c20SharedPool}, {"close-after-failed-write", c20CloseAfterFailedWrite}, {"sm4-helpers", c20SM4Helpers},
+		{"lru-porcupine", c20LRU}, {"ticketkeys-porcupine", c20TicketKeys}, {"conn-rwc", c20ConnRWC}, {"conn-duplex", c20ConnDuplex}, {"shared-pool", c20SharedPool}, {"close-after-failed-write", c20CloseAfterFailedWrite}, {"sm4-helpers", c20SM4Helpers}, {"large-pkcs7", c20LargePKCS7}, {"cache-churn", c20CacheChurn},
 	}
 	for _, s := range scenarios {
 		if c.Only != "" && c.Only != s.name {
